@@ -351,8 +351,21 @@ class StmtMixin:
             if g in st.ghost:
                 st.ghost[g] = c.fresh(st.ghost[g].sort, "G_" + g)
 
-    def loop_spec(self, idx):
-        sp = self.cur_contract.get("loops", {}).get(idx)
+    def loop_spec(self, idx, node=None):
+        loops = self.cur_contract.get("loops", {})
+        sp = loops.get(idx)
+        if sp is None and node is not None:
+            # shape-based keys 'iterated-expression|callee': robust against loops being reordered
+            it = ast.unparse(node.iter) if hasattr(node, "iter") else ast.unparse(node.test)
+            callees = {self.callee_key(x.func) for b in node.body for x in ast.walk(b) if isinstance(x, ast.Call)}
+            for k, v in loops.items():
+                if isinstance(k, str) and "|" in k:
+                    a, b = k.split("|", 1)
+                    if a in it and (b == "" or b in callees):
+                        sp = v
+                        self.loop_alias = getattr(self, "loop_alias", {})
+                        self.loop_alias[idx] = k
+                        break
         if sp is None:
             return None
         if isinstance(sp, list):
@@ -376,7 +389,7 @@ class StmtMixin:
                 return
             self.exec_block(s.orelse, st)
             return
-        spec = self.loop_spec(idx)
+        spec = self.loop_spec(idx, s)
         v = self.ev(it, st)
         if isinstance(v, EmptyV):
             self.exec_block(s.orelse, st)
@@ -413,8 +426,9 @@ class StmtMixin:
 
         def oblige_inv(state, marker, kind):
             dom.bind_marker(state, marker, idx)
+            label = getattr(self, "loop_alias", {}).get(idx, f"#{idx}")
             for i, e in enumerate(invs):
-                self.oblige(f"{self.cur}/{kind}[loop#{idx}].{i}", kind, state, self.spec(e, state, self.entry), s.lineno)
+                self.oblige(f"{self.cur}/{kind}[loop{label if label.startswith('#') else '[' + label + ']'}].{i}", kind, state, self.spec(e, state, self.entry), s.lineno)
 
         m0 = dom.initial(st)
         oblige_inv(st, m0, "inv-init")
@@ -445,7 +459,7 @@ class StmtMixin:
 
     def exec_while(self, s, st):
         idx = self.loop_ord.get(id(s), 0)
-        spec = self.loop_spec(idx)
+        spec = self.loop_spec(idx, s)
         invs = spec["inv"] if spec else []
         locs, flds, ghosts = self.loop_writes(s.body, st)
         if spec:
@@ -508,6 +522,8 @@ class Domain:
     def bind_marker(self, state, marker, idx):
         state.env[f"$vis{idx}"] = marker
         state.env[f"$idx{idx}"] = marker
+        state.env["$viscur"] = marker
+        state.env["$idxcur"] = marker
 
 
 class SetDomain(Domain):
